@@ -71,7 +71,7 @@ def rip_cursor(chk, f):
                             what="the parser enters State::ReadParams without storing command = Some(..) and parameter_state = 0 first "
                                  "(and not from the SkipEOL arm): the next command would be parsed at a stale parameter index, which the "
                                  "variable-length commands' pop().unwrap() and parse_parameter's command.as_mut().unwrap() rely on")
-    chk.floor("R-RIP-CURSOR", "stores of State::ReadParams", nstores, 3)
+    chk.floor("R-RIP-CURSOR", "stores of State::ReadParams", nstores, 2)
     chk.floor("R-RIP-CURSOR", "command starts (command = Some, parameter_state = 0, state = ReadParams)", nstart, 1)
     # no other body resets the cursor concept away: parameter_state is only ever stored a constant 0 or incremented by one
     nps = 0
